@@ -304,12 +304,154 @@ def nat_reduce(params, model):
     return {"ok": bool(ok), "detail": f"data {[d['data'] for d in specs]} le={le} re={re} -> {new['data'].tolist()}"}
 
 
+# ---------------------------------------------------------------------------- reduction at the pulse edges
+def _cutbase_run(recs, nb, na, rec_view):
+    import strax
+
+    a = _RecView(recs) if rec_view else recs  # the kernel reads fields as attributes (numba records)
+    strax.cut_baseline(a, n_before=nb, n_after=na)
+    return recs
+
+
+class _Row:
+    """row of a structured (object) array with numba-record style attribute access"""
+
+    def __init__(self, arr, i):
+        object.__setattr__(self, "_a", arr)
+        object.__setattr__(self, "_i", i)
+
+    def __getattr__(self, k):
+        return self._a[k][self._i]
+
+    def __getitem__(self, k):
+        return self._a[k][self._i]
+
+    def __setitem__(self, k, v):
+        self._a[k][self._i] = v
+
+
+class _RecView:
+    def __init__(self, arr):
+        self.arr = arr
+
+    def __len__(self):
+        return len(self.arr)
+
+    def __getitem__(self, i):
+        if isinstance(i, str):
+            return self.arr[i]
+        return _Row(self.arr, i)
+
+    def __iter__(self):
+        return (_Row(self.arr, i) for i in range(len(self.arr)))
+
+
+def sym_cutbase(nfrag, S=3):
+    """cut_baseline: the first n_before and the last n_after samples of the PULSE are zeroed, everything else and every
+    metadata field is kept."""
+    specs = _pulse_specs(nfrag, S, True)
+    recs = mk_records(specs, S, True)
+    nb = core.concretize(fresh_int("nb", 0, S))
+    na = core.concretize(fresh_int("na", 0, nfrag * S + 1))
+    meta = {k: [recs[k][i] for i in range(nfrag)] for k in ("time", "length", "channel", "record_i", "pulse_length", "dt", "baseline")}
+    _cutbase_run(recs, nb, na, True)
+    L = nfrag * S
+    for r in range(nfrag):
+        for q in range(S):
+            g = r * S + q
+            cut = g < nb or g >= L - na
+            prove(recs["data"][r][q] == (0 if cut else specs[r]["data"][q]),
+                  f"cutbase:sample {q} of fragment {r} (n_before={nb}, n_after={na}) must be {'zeroed' if cut else 'kept'}")
+        for k, v in meta.items():
+            prove(recs[k][r] == v[r], f"cutbase:metadata field {k} altered")
+    return [nb, na]
+
+
+def nat_cutbase(params, model):
+    nfrag, S = params["nfrag"], params.get("S", 3)
+    specs = _pulse_specs(nfrag, S, False, model)
+    recs = mk_records(specs, S, False)
+    nb, na = model.get("nb", 0) or 0, model.get("na", 0) or 0
+    try:
+        _cutbase_run(recs, nb, na, False)
+    except Exception as e:  # numba TypingError and the like
+        return {"ok": False, "label": f"cutbase:cut_baseline cannot be called: {type(e).__name__}",
+                "detail": f"cut_baseline(records, {nb}, {na}) raised {type(e).__name__}: {str(e)[:200]}"}
+    L, ok = nfrag * S, True
+    for r in range(nfrag):
+        for q in range(S):
+            g = r * S + q
+            want = 0 if (g < nb or g >= L - na) else specs[r]["data"][q]
+            ok = ok and int(recs["data"][r][q]) == want
+    return {"ok": bool(ok), "label": "cutbase:samples", "detail": f"n_before={nb} n_after={na} -> {recs['data'].tolist()}"}
+
+
+# ---------------------------------------------------------------------------- baselining
+def _bl_specs(S, sym, model=None, lo=0):
+    if sym:
+        length = core.concretize(fresh_int("len", 1, S))
+        data = [fresh_int(f"x{q}", lo, 40) for q in range(S)]
+    else:
+        length = model.get("len", 1) or 1
+        data = [model.get(f"x{q}", 0) or 0 for q in range(S)]
+    data = [x if q < length else 0 for q, x in enumerate(data)]  # beyond the pulse a record is zero-padded
+    return [dict(time=100, length=length, channel=0, record_i=0, pulse_length=length, baseline=0.0, dt=2, data=data)], length
+
+
+def sym_baseline(B, S=4, lo=0):
+    """strax.baseline on one short pulse (length <= record size): the stored baseline is the mean of the first
+    min(baseline_samples, length) REAL samples, and with the stored fractional part integrate() gives the exact
+    baseline-subtracted area  sum(baseline - raw)."""
+    import strax
+
+    specs, length = _bl_specs(S, True, lo=lo)
+    recs = mk_records(specs, S, True)
+    strax.baseline(_RecView(recs), baseline_samples=B)  # rows whose sub-arrays are symbolic arrays (mean / std)
+    n = min(B, length)
+    true_bl = core.ssum(specs[0]["data"][:n], 0) / n
+    prove(recs["baseline"][0] == true_bl, f"baseline:stored baseline is not the mean of the first {n} samples of the pulse "
+                                          f"(length {length}, baseline_samples {B})")
+    strax.integrate(recs)
+    true_area = core.ssum([true_bl - specs[0]["data"][q] for q in range(length)], 0)
+    # the area field is an integer: integrate rounds the fractional contribution (documented), so within 1/2
+    prove(sand(2 * (recs["area"][0] - true_area) <= 1, 2 * (recs["area"][0] - true_area) >= -1),
+          "baseline:integrate(area) is not the (rounded) sum of (baseline - raw sample) over the pulse")
+    return length
+
+
+def nat_baseline(params, model):
+    import strax
+
+    B, S = params["B"], params.get("S", 4)
+    specs, length = _bl_specs(S, False, model)
+    recs = mk_records(specs, S, False)
+    strax.baseline(recs, baseline_samples=B)
+    n = min(B, length)
+    raw = specs[0]["data"]
+    true_bl = sum(raw[:n]) / n
+    strax.integrate(recs)
+    true_area = sum(true_bl - raw[q] for q in range(length))
+    ok = abs(float(recs["baseline"][0]) - true_bl) < 1e-3 and abs(float(recs["area"][0]) - true_area) <= 0.5 + 1e-3
+    return {"ok": bool(ok), "label": "baseline:stored baseline / area differ from the definition",
+            "detail": f"raw {raw} length {length} baseline_samples {B}: stored baseline {float(recs['baseline'][0])} (mean of the "
+                      f"pulse's first {n} samples: {true_bl}), area {float(recs['area'][0])} (true {true_area})"}
+
+
 def sym_twin():
     sym_hits(1, 3)
     prove(False, "twin:reachable")
 
 
 MUTANTS = [
+    dict(name="baseline window ignores the record length (original defect F-C18a)", file="strax/processing/pulse_processing.py",
+         only="baseline", old='            w = d["data"][: min(baseline_samples, d["length"])]', new='            w = d["data"][:baseline_samples]'),
+    dict(name="baseline truncated towards zero (original defect F-C18b)", file="strax/processing/pulse_processing.py",
+         only="baseline", old='            d["data"][: d["length"]] - int(np.floor(bl))', new='            d["data"][: d["length"]] - int(bl)'),
+    dict(name="cut_baseline calls astype on a scalar (original defect F-C18c)", file="strax/processing/data_reduction.py",
+         only="cutbase", old="        clear_from -= np.int32(d.record_i) * samples_per_record",
+         new="        clear_from -= d.record_i.astype(np.int32) * samples_per_record"),
+    dict(name="cut_baseline clears one sample too few at the end", file="strax/processing/data_reduction.py",
+         only="cutbase", old="        clear_from = d.pulse_length - n_after", new="        clear_from = d.pulse_length - n_after + 1"),
     dict(name="hit threshold strict", file="strax/processing/pulse_processing.py", only="hits",
          old="            satisfy_threshold = x >= threshold", new="            satisfy_threshold = x > threshold"),
     dict(name="hit at record end one sample short", file="strax/processing/pulse_processing.py", only="hits",
@@ -332,5 +474,9 @@ OBLIGATIONS = [
        nat_reduce, setup=_setup, witnesses=3, max_paths=400000,
        doc="cut_outside_hits keeps exactly the samples within the extensions of hits (into adjacent fragments), zeroes "
            "the rest, leaves metadata untouched"),
+    Ob("baseline", sym_baseline, lambda tier: [dict(B=2), dict(B=3), dict(B=6), dict(B=3, lo=-40)], nat_baseline, setup=_setup,
+       witnesses=2, doc="baseline == mean of the first min(baseline_samples, length) samples; area consistent with it"),
+    Ob("cutbase", sym_cutbase, lambda tier: [dict(nfrag=1), dict(nfrag=2)], nat_cutbase, setup=_setup, witnesses=2,
+       doc="cut_baseline zeroes exactly the first n_before / last n_after samples of the pulse"),
     Ob("twin", sym_twin, lambda tier: [dict()], None, setup=_setup, expect_cex=True),
 ]
